@@ -416,23 +416,26 @@ func replayCex(path string) (status, detail string) {
 	gen := filepath.Join(outRoot, "out", "gen", rel)
 	os.MkdirAll(gen, 0o755)
 	testFile := filepath.Join(gen, "zz_verif_replay_test.go")
+	zzImport, zzSel := "\n\tzz \"github.com/buzzfeed/sso/internal/zzverif\"", "zz."
+	if rel == "internal/zzverif" {
+		zzImport, zzSel = "", ""
+	}
 	src := fmt.Sprintf(`package %s
 
 import (
 	"fmt"
 	"testing"
-
-	zz "github.com/buzzfeed/sso/internal/zzverif"
+%s
 )
 
 func TestVerifReplay(t *testing.T) {
-	status, detail := zz.Replay(VerifHarnesses)
+	status, detail := %sReplay(VerifHarnesses)
 	fmt.Printf("REPLAY-RESULT: %%s | %%s\n", status, detail)
 	if status == "reproduced" {
 		t.Fatalf("violation reproduced: %%s", detail)
 	}
 }
-`, pkgName)
+`, pkgName, zzImport, zzSel)
 	os.WriteFile(testFile, []byte(src), 0o644)
 	ov := map[string]map[string]string{"Replace": {}}
 	for virt, real := range overlayFiles() {
@@ -479,6 +482,9 @@ func schedScore(c *Cex) int {
 
 func pkgNameOf(rel string) (string, error) {
 	files, _ := filepath.Glob(filepath.Join(repoDir, rel, "*.go"))
+	if len(files) == 0 && rel == "internal/zzverif" {
+		files, _ = filepath.Glob(filepath.Join(verifDir, "rt/zzverif/*.go"))
+	}
 	for _, f := range files {
 		b, err := os.ReadFile(f)
 		if err != nil {
